@@ -19,6 +19,7 @@ import (
 	"strconv"
 
 	"rcproxy/core/codec"
+	"rcproxy/core/pkg/constant"
 	"rcproxy/core/pkg/errors"
 	"rcproxy/core/pkg/hashkit"
 	"rcproxy/core/pkg/logging"
@@ -42,7 +43,12 @@ func (rc *CRespCodec) Decode(c CConn) (*Msg, error) {
 
 	line, err := buf.ReadLine()
 	if err != nil {
-		return nil, errors.ErrIncompletePacket
+		if err == codec.ErrLFNotFound {
+			return nil, errors.ErrIncompletePacket
+		}
+		// a complete but malformed first line can never become a valid request
+		logging.Warnf("[%dc] unexpect resp, buf: %s", c.Fd(), utils.FormatRedisRESPMessages(buf.PeekAll()))
+		return nil, codec.ErrInvalidResp
 	}
 
 	msgId++
@@ -53,7 +59,7 @@ func (rc *CRespCodec) Decode(c CConn) (*Msg, error) {
 		n, err = parseLen(line[1:])
 		if n < 1 || err != nil {
 			logging.Warnf("[%dm][%dc] unexpect resp, buf: %s", msgId, c.Fd(), utils.FormatRedisRESPMessages(buf.PeekAll()))
-			return nil, err
+			return nil, codec.ErrInvalidResp
 		}
 	default:
 		logging.Warnf("[%dm][%dc] unexpect resp, buf: %s", msgId, c.Fd(), utils.FormatRedisRESPMessages(buf.PeekAll()))
@@ -73,8 +79,8 @@ func (rc *CRespCodec) Decode(c CConn) (*Msg, error) {
 	resp.Id = msgId
 	resp.Owner = c
 	resp.Type = codec.Transform2Type(msg, n)
-	resp.Body = make(map[int32]*Frag, n)
-	resp.Fd2Slot = make(map[int]int32, n)
+	resp.Body = make(map[int32]*Frag, sizeHint(n))
+	resp.Fd2Slot = make(map[int]int32, sizeHint(n))
 
 	if rc.sizeTooLarge(buf.TotalSize()) {
 		resp.Type = codec.ReqTooLarge
@@ -114,7 +120,7 @@ func (rc *CRespCodec) Decode(c CConn) (*Msg, error) {
 }
 
 func (rc *CRespCodec) Frag1(c CConn, n int, resp *Msg, buf *codec.Buffer) error {
-	resp.Frags = make(map[int32][]string, n)
+	resp.Frags = make(map[int32][]string, sizeHint(n))
 	for i := 0; i < n; i++ {
 		msg, err := rc.parseLine(buf)
 		if err != nil {
@@ -136,7 +142,7 @@ func (rc *CRespCodec) Frag1(c CConn, n int, resp *Msg, buf *codec.Buffer) error 
 }
 
 func (rc *CRespCodec) Frag2(c CConn, n int, resp *Msg, buf *codec.Buffer) error {
-	resp.Frags2 = make(map[int32][][2]string, n/2)
+	resp.Frags2 = make(map[int32][][2]string, sizeHint(n/2))
 	for i := 0; i < n; i = i + 2 {
 		msg, err := rc.parseLine(buf)
 		if err != nil {
@@ -278,15 +284,21 @@ func (rc *CRespCodec) MSet(resp *Msg) {
 }
 
 func (rc *CRespCodec) parseLine(buf *codec.Buffer) ([]byte, error) {
+	r := buf.ReadSize()
 	line, err := buf.ReadLine()
 	if err != nil {
+		// EmptyLine after bytes were consumed is a complete line that is too short, not a short read
+		if err == codec.EmptyLine && buf.ReadSize() != r {
+			return nil, codec.ErrInvalidResp
+		}
 		return nil, err
 	}
 	switch line[0] {
 	case '$':
 		n, err := parseLen(line[1:])
 		if n < 0 || err != nil {
-			return nil, err
+			// a request argument is never a null bulk
+			return nil, codec.ErrInvalidResp
 		}
 		b, err := buf.ReadN(n)
 		if err != nil {
@@ -304,6 +316,15 @@ func (rc *CRespCodec) parseLine(buf *codec.Buffer) ([]byte, error) {
 	default:
 		return nil, codec.ErrInvalidResp
 	}
+}
+
+// sizeHint bounds a map size hint taken from a client supplied count:
+// a request never has more fragments than there are slots.
+func sizeHint(n int) int {
+	if n > constant.RedisClusterSlots {
+		return constant.RedisClusterSlots
+	}
+	return n
 }
 
 func (rc *CRespCodec) sizeTooLarge(size int) bool {
